@@ -263,6 +263,11 @@ def r6_cancel_bookkeeping(ctx):
                     if bool(marks) != bool(has):
                         bad.add(('marks' if marks else 'does not mark') + ' with ' + ', '.join(f'{a[-40:]}={val[a]}' for a in ats if a not in none_atoms and not a.startswith("'")))
                 else:
+                    from . import c02 as _c02
+                    closed_ = _c02._closed_atoms(ctx, sop, ats)
+                    if closed_:
+                        raise AnalysisError(f'{sop.loc}: for {op!r} the path depends on `{closed_[0][:70]}`, fixed by the operator but not computed '
+                                            f'by the evaluator: not decided')
                     bad.add('no test of last_spine_operator_node on this path')
         ctx.check(not bad, 'R6', sop.loc, sop.qualname, f'cancel-bookkeeping:{op}',
                   f'{op}: the split it closes is marked cancelled at this stage whenever there is one, on every path',
